@@ -157,6 +157,13 @@ def pos_program(position, func, lib):
     raise ValueError(position)
 
 
+# library names: the library named by the instruction is the one that is opened, whatever its file name looks like ------------
+LIB_NAMES = ["probe.so", "probe.dll", "probe.dylib", "probe", "probe.so.1", "probe.bin", "libs/probe.v2.so", "./probe.x.y", "probe.SO", "pro be.so"]
+# (name asked for, sibling that exists): the library asked for is missing; a file with a similar name must not be opened instead
+LIB_GHOSTS = [("ghost.dll", "ghost.so"), ("ghost", "ghost.so"), ("ghost.so.1", "ghost.so"), ("ghost.so", "ghost.dll"), ("ghost.so", "ghost"),
+              ("libs/ghost.bin", "libs/ghost.so"), ("ghost.so", "libghost.so")]
+
+
 def rust_str_debug(s):
     return '"' + s.replace("\\", "\\\\").replace('"', '\\"') + '"'
 
@@ -197,7 +204,9 @@ class C19(Check):
                     yield (vec, f)
         seq2 = [("seq", c) for c in itertools.product(range(len(SEQ_CALLS)), repeat=2)]
         posl = [("pos", p_, f_) for p_ in POSITIONS for f_ in POS_FUNCS if not (p_ == "filter-callback" and f_ == "echo")]
-        ls = [("L0-len<=2", list(gen(2))), ("L0b-call-sequences-of-2", seq2), ("L0c-call-positions", posl), ("L1-len<=4", gen(4, 3))]
+        libl = [("lib", "named", i) for i in range(len(LIB_NAMES))] + [("lib", "ghost", i) for i in range(len(LIB_GHOSTS))]
+        ls = [("L0-len<=2", list(gen(2))), ("L0b-call-sequences-of-2", seq2), ("L0c-call-positions", posl), ("L0d-library-file-names", libl),
+              ("L1-len<=4", gen(4, 3))]
         if L > 4:
             ls.append(("L1b-call-sequences-of-3", [("seq", c) for c in itertools.product(range(len(SEQ_CALLS)), repeat=3)]))
         if L > 4:
@@ -210,6 +219,8 @@ class C19(Check):
             return {"sequence": [f"{SEQ_CALLS[i][1]}@{SEQ_CALLS[i][0]}" for i in case[1]]}
         if case[0] == "pos":
             return {"position": case[1], "function": case[2]}
+        if case[0] == "lib":
+            return {"library": LIB_NAMES[case[2]] if case[1] == "named" else list(LIB_GHOSTS[case[2]]), "kind": case[1]}
         vec, f = case
         return {"args": [f"{k}:{VALS[k][i][1]}" for k, i in vec], "function": f}
 
@@ -268,7 +279,45 @@ class C19(Check):
         return {"outcome": ("pos-ok" if func in ("echo", "last") else "pos-err") + ("-DIFF" if viol else ""), "viol": viol,
                 "nontrivial": True, "tags": ["pos", f"pos-{position}"]}
 
+    def run_lib(self, case):
+        import os
+        import shutil
+        _, kind, i = case
+        d = driver.fresh_dir()
+        os.makedirs(os.path.join(d, "libs"), exist_ok=True)
+        if kind == "named":
+            asked = LIB_NAMES[i]
+            shutil.copy(build.PROBE_LIB, os.path.join(d, asked))
+            # a decoy with the platform suffix that answers differently (library B tags its output)
+            decoy = os.path.splitext(asked)[0] + ".so"
+            if decoy != asked and not os.path.exists(os.path.join(d, decoy)):
+                shutil.copy(build.PROBE2_LIB, os.path.join(d, decoy))
+        else:
+            asked, sibling = LIB_GHOSTS[i]
+            shutil.copy(build.PROBE_LIB, os.path.join(d, sibling))
+        path = asked if asked.startswith("./") else "./" + asked
+        quoted = '"' + path + '"' if " " in path else path
+        prog = b"f __module__\0" + ins("make_int", "7") + ins("call_lib", quoted, "echo") + ins("printn", "*") + ins("void") + \
+            ins("make_str", "SENTINEL") + ins("printn", "*") + ins("void") + ins("ret_mod") + b"e\0"
+        driver.write_files(d, {"a.mmm": prog})
+        res = driver.run(["execute", "a.mmm"], d, env={"MSCRIPT_VERIF_TYPED_PRINT": "1"})
+        lines = res.lines()
+        viol = []
+        detail = {"case": self.describe(case), "files": {"a.mmm": prog}, "res": res.brief(), "directory": sorted(os.listdir(d)) + sorted("libs/" + x for x in os.listdir(os.path.join(d, "libs")))}
+
+        def bad(k, what):
+            viol.append({"sig": {"kind": k, "func": "library-name", "name": asked}, "what": f"library `{asked}`: {what}", "detail": detail})
+        if kind == "named":
+            if res.exit != 0 or lines != ["Str:[int:7]", "Str:SENTINEL"]:
+                bad("wrong-library", f"the named file exists and must be the one called; got {lines} exit {res.exit} {res.err[-160:]}")
+        else:
+            if res.exit == 0 or res.cls != "error" or "Could not open FFI Library" not in res.err or lines:
+                bad("missing-library-not-reported", f"the named file does not exist (only `{sibling}` does); got {lines} exit {res.exit} ({res.cls})")
+        return {"outcome": f"lib-{kind}" + ("-DIFF" if viol else ""), "viol": viol, "nontrivial": True, "tags": ["lib", f"lib-{kind}"]}
+
     def run_case(self, case):
+        if case[0] == "lib":
+            return self.run_lib(case)
         if case[0] == "seq":
             return self.run_seq(case)
         if case[0] == "pos":
@@ -323,7 +372,7 @@ class C19(Check):
 
     def finish(self, stats, tier):
         errs = []
-        for f in FUNCS + ["seq", "pos"] + [f"pos-{p_}" for p_ in POSITIONS]:
+        for f in FUNCS + ["seq", "pos", "lib-named", "lib-ghost"] + [f"pos-{p_}" for p_ in POSITIONS]:
             if not stats["tags"].get(f):
                 errs.append(f"vacuity: function {f} never exercised")
         return errs
